@@ -30,10 +30,14 @@ func main() {
 	seed := flag.Int("seed", 0, "seed (unused by the analysis; recorded)")
 	list := flag.Bool("list", false, "print all obligations")
 	noEvidence := flag.Bool("no-evidence", false, "analyse only; do not write evidence (used for variants)")
+	dump := flag.String("dump", "", "debug dumps: guards")
 	flag.Parse()
 
 	start := time.Now()
 	var ids []string
+	if *dump != "" && *prop == "" {
+		*prop = "all"
+	}
 	if *prop == "all" {
 		for id := range registry {
 			ids = append(ids, id)
@@ -64,6 +68,10 @@ func main() {
 			fmt.Printf("VIOLATION property=%s replay=%s\n", id, "load-failure")
 		}
 		os.Exit(1)
+	}
+	if *dump == "guards" {
+		DumpGuardStats(c)
+		os.Exit(0)
 	}
 	known, err := LoadKnown(filepath.Join(*verif, "known_findings.json"))
 	if err != nil {
